@@ -5,7 +5,9 @@ rule) of every rule on its own.
 
 case = {"rules": [rule...], "pipe": bool, "fmt": "default"|"test", "collect": bool, "fcs": bool}
  detection rule   {"k": "d", "conds": [c...], "form": "list"|"and"|"or"|"1of", "stage": "ok"|"pipe"|"fin"|"crash", "fld": 0..3}
-      c in "ok" | "ph" (unresolved placeholder) | "type" (keyword boolean) | "cond" (condition names a missing detection)
+      c in "ok" | "gok" (two comparisons) | "ph" (unresolved placeholder) | "gph" (group: fine comparison, then placeholder)
+           | "type" (keyword boolean) | "cond" (condition names a missing detection); prefix "n" = used below a NOT
+ "noteq": the backend class has convert_not_as_not_eq = True (negation rendered with != / not_* expressions)
  correlation rule {"k": "c", "refs": [positions], "gen": bool, "stage": "ok"|"pipe"|"fin"|"crash"}
 Rule number i is named r<i>.
 """
@@ -55,16 +57,23 @@ def rule_doc(i, r, names, force_nogen=False):
     fld = FIELDS[r.get("fld", 0)]
     for k, c in enumerate(r["conds"]):
         sel = "s%d" % k
+        neg = c.startswith("n")       # the selection is used below a NOT
+        c = c[1:] if neg else c
         if c == "ok":
-            det[sel] = {fld: i * 10 + k} if k % 2 == 0 else {fld: "v%d%d*" % (i, k)}
+            # plain string (eq expression) / prefix match (startswith expression) / number
+            det[sel] = {fld: "v%d" % i} if k % 3 == 0 else {fld: "v%d%d*" % (i, k)} if k % 3 == 1 else {fld: i * 10 + k}
+        elif c == "gok":              # a group of two comparisons
+            det[sel] = {fld: "w%d%d" % (i, k), "y": "*z%d" % k}
         elif c == "ph":
             det[sel] = {fld + "|expand": "%x%"}
+        elif c == "gph":              # a group: one comparison renders, the next one fails
+            det[sel] = {"y": "z%d*" % k, fld + "|expand": "%x%"}
         elif c == "type":
             det[sel] = [True]
         elif c == "cond":
             det[sel] = {fld: 1}
             sel = "missing%d" % k
-        conds.append(sel)
+        conds.append("not " + sel if neg else sel)
     form = r.get("form", "list")
     if form == "list" or len(conds) == 1:
         cond = conds if len(conds) > 1 else conds[0]
@@ -74,6 +83,8 @@ def rule_doc(i, r, names, force_nogen=False):
         cond = " or not ".join(conds)
     else:
         cond = "1 of s*" if all(c.startswith("s") for c in conds) else " or ".join(conds)
+    if any(c.startswith("not ") for c in conds) and form != "list" and len(conds) > 1:
+        cond = " and ".join(conds)
     det["condition"] = cond
     return {"title": "R%d" % i, "name": name, "logsource": {"category": "test"}, "detection": det}
 
@@ -95,8 +106,24 @@ def make_pipeline(case, names):
     return ProcessingPipeline(items=items, postprocessing_items=post)
 
 
+_nclass = [0]
+
+
 def make_backend(case, names, collect):
-    cls = FcsBackend if case.get("fcs") else TextQueryTestBackend
+    """a new backend *class* for every backend object: class-level attributes (the expression templates that
+    the not-equals rendering swaps on the class) never travel between the collection run and the reference runs"""
+    _nclass[0] += 1
+    attrs = {}
+    if case.get("fcs"):
+        attrs["finalize_correlation_subqueries"] = True
+    if case.get("noteq"):
+        attrs.update(convert_not_as_not_eq=True, not_eq_token="!=",
+                     not_startswith_expression="{field} not_startswith {value}",
+                     not_endswith_expression="{field} not_endswith {value}",
+                     not_contains_expression="{field} not_contains {value}",
+                     not_re_expression="{field}!=/{regex}/",
+                     not_cidr_expression="not_cidrmatch('{field}', \"{value}\")")
+    cls = type("VerifBackend%d" % _nclass[0], (TextQueryTestBackend,), attrs)
     return cls(make_pipeline(case, names), collect_errors=collect)
 
 
